@@ -45,3 +45,5 @@ pub fn presolver_dims(data: &DefaultProblemData<f64>) -> Option<(usize, usize, f
 
 // per-thread event recorder for the solve loop (C04, C07, C20)
 pub mod trace;
+// facts about a constructed solver used by the solve-loop model
+pub mod skel;
